@@ -411,6 +411,7 @@ pub fn execute(case: &RegCase) -> (RunResult, CaseReport) {
         log_ops: true,
         abort_unwind: false,
         script: case.script.clone(),
+        abort_on_cell_race: true,
     };
     let exec = Exec::new(cfg, n);
     {
@@ -1140,7 +1141,6 @@ macro_rules! worker_fn {
 }
 worker_fn!(w01, Focus::C01);
 worker_fn!(w02, Focus::C02);
-worker_fn!(w03, Focus::C03);
 worker_fn!(w04, Focus::C04);
 fn w18(def: &PropDef, args: &WorkerArgs) -> WorkerReport {
     let strat = prop_oneof![5 => strategy(Focus::C18), 1 => sustain_strategy()].boxed();
@@ -1174,18 +1174,6 @@ pub static C02: PropDef = PropDef {
     cases: (1500, 40_000),
     shrink_iters: 600,
     worker: w02,
-    replay,
-    extra: None,
-};
-
-pub static C03: PropDef = PropDef {
-    id: "C03",
-    prefixes: &["C03/", "crash/sig=6"],
-    rule: "same generator with isolated deliveries (every other thread frozen, on a fresh or on the interrupted thread); oracle: inside a delivery only atomic load/store/RMW shim operations (no lock, yield, spin, block), <=12 own atomic steps, zero heap operations by library code (global allocator wrapper), isolated delivery finishes alone, child not aborted. Non-trivial = delivery began strictly inside a register/unregister call; distinct = hash of realised interleaving",
-    assumptions: ASSUME,
-    cases: (1500, 40_000),
-    shrink_iters: 600,
-    worker: w03,
     replay,
     extra: None,
 };
